@@ -29,19 +29,6 @@ fn judge_arg_len(a: &RefArg, loc: &mut Local) {
     }
 }
 
-fn config_of(m: &RefMsg) -> MessageConfig {
-    MessageConfig {
-        version: m.version,
-        counter: m.mcnt,
-        endianness: endianness_of(m.big),
-        ecu_id: m.ecu.clone(),
-        session_id: m.session,
-        timestamp: m.timestamp,
-        payload: payload_to_crate(&m.payload),
-        extended_header_info: m.ext.as_ref().map(|e| ExtendedHeaderConfig { message_type: message_type_of(e.mstp, e.mtin), app_id: e.apid.clone(), context_id: e.ctid.clone() }),
-    }
-}
-
 /// representable configuration (a message of U): the built message must equal the reference
 /// message field for field, measure itself correctly and parse back
 fn judge_new(m: &RefMsg, loc: &mut Local) {
